@@ -8,9 +8,9 @@
      attrs None = no attributes | Some k = opaque id of the attribute list
      cmt   true iff the item's ListItem has a pre/post comment
      txt   the path, as a list of Unicode scalar values, in this syntax:
-             tree := ['#'] seg ('::' seg)*          '#' = the nested item has a comment
+             tree := ['!'] seg ('::' seg)*          '!' = the nested item has a comment
              seg  := '*' | '{' [tree (', ' tree)*] '}' | word [' as ' word]
-           word = any characters except space , { } : * # ; the words self, super,
+           word = any characters except space , { } : * ! ; the words self, super,
            crate are the Slf/Super/Crate segments (with their alias printed, unlike
            rustfmt's Display); a leading '::' is part of the first identifier's
            name, as in from_ast (Ident "::a"); '::{' and '::*' at the start give
@@ -58,14 +58,14 @@ Fixpoint show (t : tree) : text :=
             | None => []
             | Some l =>
                 [[123] ++ join [44; 32]
-                       (map (fun x => (if cmt x then [35] else []) ++ show x) l) ++ [125]]
+                       (map (fun x => (if cmt x then [33] else []) ++ show x) l) ++ [125]]
             end)
   end.
 
 (* ------------------------------------------------------------------ *)
 (* parser *)
 Definition is_delim (c : char) : bool :=
-  (c =? 32) || (c =? 44) || (c =? 123) || (c =? 125) || (c =? 58) || (c =? 42) || (c =? 35).
+  (c =? 32) || (c =? 44) || (c =? 123) || (c =? 125) || (c =? 58) || (c =? 42) || (c =? 33).
 Fixpoint take_word (s : text) : text * text :=
   match s with
   | c :: r => if is_delim c then ([], s) else let '(w, r') := take_word r in (c :: w, r')
@@ -84,7 +84,7 @@ Fixpoint ptree (fuel : nat) (s : text) {struct fuel} : option (tree * text) :=
   | O => None
   | S f =>
       let s := skip_sp s in
-      let '(c, s) := match s with 35 :: r => (true, r) | _ => (false, s) end in
+      let '(c, s) := match s with 33 :: r => (true, r) | _ => (false, s) end in
       match s with
       | 58 :: 58 :: r => psegs f true c [] r
       | _ => psegs f false c [] s
@@ -205,5 +205,26 @@ Definition run_leaves_after (g : N) (grp reorder : bool) (items : list item)
   : option (list (N * option N * text)) :=
   match parse_items items with
   | Some ts => Some (map enc_leaf (Leaves (concat (pipeline cmp15 (gran_of g) grp reorder ts))))
+  | None => None
+  end.
+
+(* side conditions of the theorems, for the correspondence run:
+   run_shape items   = forallb ast_shape      (must be true of every from_ast result)
+   run_bad g items   = BadClass cmp15 g       (false => pipeline_leaves applies)
+   run_classes items = (NestedEmptyList, DupAcrossVisibility, DupAcrossAttrs,
+                        DupModuloRootAlias, AliasedPrefixOne, DupModuloAliasNested,
+                        alias_clash Module, alias_clash Crate, alias_clash One)
+                       on the normalized trees *)
+Definition run_shape (items : list item) : option bool :=
+  match parse_items items with Some ts => Some (forallb ast_shape ts) | None => None end.
+Definition run_bad (g : N) (items : list item) : option bool :=
+  match parse_items items with Some ts => Some (BadClass cmp15 (gran_of g) ts) | None => None end.
+Definition run_classes (items : list item) :=
+  match parse_items items with
+  | Some ts =>
+      let ns := map (normalize cmp15) ts in
+      Some (NestedEmptyList ns, DupAcrossVisibility ns, DupAcrossAttrs ns,
+            DupModuloRootAlias ns, AliasedPrefixOne ns, DupModuloAliasNested ns,
+            alias_clash cmp15 SPModule ns, alias_clash cmp15 SPCrate ns, alias_clash cmp15 SPOne ns)
   | None => None
   end.
